@@ -12,7 +12,7 @@ D="$(mktemp -d /tmp/vfseed.XXXXXX)"
 trap 'rm -rf "$D"' EXIT
 cp -r /repo/. "$D/" && rm -rf "$D/.git"
 cp "$WT/demo$L.py" "$D/demo$L.py"
-OUT="$HERE/seeded/$PROP-$L"; mkdir -p "$OUT"
+OUT="$HERE/seeded/$PROP-${SEED_TAG}$L"; mkdir -p "$OUT"
 cp "$WT/patch$L.diff" "$OUT/patch.diff"; cp "$WT/demo$L.py" "$OUT/demo.py"
 ( cd "$D" && timeout 300 /venv/bin/python demo$L.py > "$D/demo_clean.out" 2>&1 ); RC_CLEAN=$?
 ( cd "$D" && patch -p1 -s < "$WT/patch$L.diff" ) || { echo "PATCH-FAILED"; exit 3; }
@@ -26,7 +26,7 @@ for id in $CHECKS; do
   RES="$RES$id:exit=$rc:$(grep -c '^VIOLATION' "$D/out.$id")viol:[$KEY]; "
   cp "$D/out.$id" "$OUT/check_$id.out"
 done
-echo "$PROP-$L clean_demo=$RC_CLEAN patched_demo=$RC_PATCHED tests='$TESTS' checks: $RES"
+echo "$PROP-${SEED_TAG}$L clean_demo=$RC_CLEAN patched_demo=$RC_PATCHED tests='$TESTS' checks: $RES"
 /venv/bin/python - "$OUT" "$PROP" "$L" "$RC_CLEAN" "$RC_PATCHED" "$TESTS" "$RES" "$WT" <<'PY'
 import json, sys, re, os
 out, prop, L, rcc, rcp, tests, res, wt = sys.argv[1:9]
